@@ -99,7 +99,7 @@ func VerifH_C02_pool_insertion_total() { VerifH_C08_pool_history() }
 func VerifH_C02_policies_json() {
 	maxPolicies, maxNotices := 1, 3
 	if vr.Tier() == 1 {
-		maxPolicies, maxNotices = 2, 4
+		maxPolicies, maxNotices = 2, 3 // (2, 4) exceeds 200000 paths
 	}
 	n := vr.Int("policies", 0, maxPolicies)
 	cp := &CertificatePoliciesData{
